@@ -3,17 +3,33 @@
 #include <common/ndjson.hpp>
 #include <tlx/sort/parallel_mergesort.hpp>
 #include <atomic>
+#include <cstring>
 #include <fstream>
 #include <sys/wait.h>
 using namespace vf;
 
 static std::atomic<long> g_live{0};   // real std::atomic: the driver is outside namespace tlx
+// accesses to the caller's array, tagged with the thread and the number of barrier waits it has completed (shim build only):
+// the phase discipline of PMergesortI (read own chunk before the first barrier, write own output range in the merge phase only)
+struct Acc { int tid; bool write; long pos; int phase; };
+static std::vector<Acc> g_acc;
+static const char *g_vbeg = nullptr, *g_vend = nullptr;
+static int g_locks[64];
+static size_t g_elem = 1;
+static inline void note(const void* p, bool w) {
+#ifndef NO_VSCHED
+    const char* c = static_cast<const char*>(p);
+    if (c >= g_vbeg && c < g_vend && g_acc.size() < 4000) { int t = vsched::self(); g_acc.push_back({t, w, (long)((c - g_vbeg) / g_elem) + 1, g_locks[t & 63]}); }
+#else
+    (void)p; (void)w;
+#endif
+}
 struct PElem {
     long long key = 0; long long id = -1; char* heap;
     PElem() : heap(new char(1)) { ++g_live; }
     PElem(long long k, long long i) : key(k), id(i), heap(new char(1)) { ++g_live; }
-    PElem(const PElem& o) : key(o.key), id(o.id), heap(new char(1)) { vsched::access(&o, false); vsched::access(this, true); ++g_live; }
-    PElem& operator=(const PElem& o) { vsched::access(&o, false); vsched::access(this, true); key = o.key; id = o.id; return *this; }
+    PElem(const PElem& o) : key(o.key), id(o.id), heap(new char(1)) { vsched::access(&o, false); vsched::access(this, true); note(&o, false); note(this, true); ++g_live; }
+    PElem& operator=(const PElem& o) { vsched::access(&o, false); vsched::access(this, true); note(&o, false); note(this, true); key = o.key; id = o.id; return *this; }
     ~PElem() { delete heap; --g_live; }
 };
 struct PLess { bool operator()(const PElem& a, const PElem& b) const { vsched::access(&a, false); vsched::access(&b, false); return a.key < b.key; } };
@@ -25,6 +41,11 @@ static void one(Out& out, const std::vector<long long>& keys, bool stable, int m
     tlx::parallel_multiway_merge_oversampling = oversampling;
     vsched::clear_watches(); if (!v.empty()) vsched::watch(v.data(), v.data() + v.size());
     long live_before = g_live;
+    g_acc.clear(); std::memset(g_locks, 0, sizeof(g_locks)); g_elem = sizeof(PElem);
+    g_vbeg = v.empty() ? nullptr : reinterpret_cast<const char*>(v.data()); g_vend = v.empty() ? nullptr : reinterpret_cast<const char*>(v.data() + v.size());
+#ifndef NO_VSCHED
+    vsched::set_observer([](int tid, int kind, int, long long, long long) { if (kind == vsched::K_UNLOCK) ++g_locks[tid & 63]; /* one explicit unlock per completed barrier.wait() */ });
+#endif
     vsched::Config cfg; cfg.seed = seed; cfg.strategy = strat; cfg.pct_depth = pct_depth; cfg.pct_steps = 400;
     auto sa = static_cast<tlx::MultiwayMergeSplittingAlgorithm>(mwmsa);
     vsched::Result res = vsched::run([&] {
@@ -32,11 +53,18 @@ static void one(Out& out, const std::vector<long long>& keys, bool stable, int m
         else tlx::parallel_mergesort(v.begin(), v.end(), PLess(), threads, sa);
     }, cfg);
     long live_after = g_live;
+    g_vbeg = g_vend = nullptr;
+    std::string acc = "[";
+    for (size_t i = 0; i < g_acc.size(); ++i) acc += std::string(i ? "," : "") + "[" + std::to_string(g_acc[i].tid) + "," + (g_acc[i].write ? "1" : "0") + "," + std::to_string(g_acc[i].pos) + "," + std::to_string(g_acc[i].phase) + "]";
+    acc += "]";
     std::vector<long long> ids; for (auto& e : v) ids.push_back(e.id);
     std::string pt = "[";
     for (size_t i = 0; i < res.problems.size() && i < 3; ++i) pt += std::string(i ? "," : "") + "\"" + res.problems[i] + "\"";
     Ev e("sort"); e.arr("keys", keys).arr("out", ids).boolean("stable", stable).num("live_delta", live_after - live_before).num("problems", (long long)res.problems.size())
         .raw("problem_text", pt + "]").boolean("deadlock", res.deadlock).num("mwmsa", mwmsa).num("threads", threads).num("oversampling", oversampling).num("strategy", strat);
+#ifndef NO_VSCHED
+    if (g_acc.size() < 4000) e.raw("acc", acc);
+#endif
     e.emit(out);
 }
 
